@@ -14,3 +14,4 @@ import WowVerif.Props.C02
 import WowVerif.Props.C06
 import WowVerif.Props.C07
 import WowVerif.Props.C10
+import WowVerif.Props.C16
